@@ -14,6 +14,8 @@ def menu_fn(w):
 
 def main(tier, replay_payload=None):
     w_args = universe(tier)
+    if "" not in w_args["formats"]:
+        w_args["formats"] = list(w_args["formats"]) + [""]      # the empty format is a format of its own
     if tier == "thorough":
         w_args["docs"] = [b"", b"<v0/>", b"<v1/>12345678"]
     if replay_payload is not None:
